@@ -283,29 +283,68 @@ dgram_rt!(c03_datagram_roundtrip_payload_fn, 0, 2, true);
 
 // @h props=C03,C17,C11 tier=quick t=1800 mem=20 sub=datagram-receive covers=any
 // @fn wtransport/src/datagram.rs Datagram::{read,payload,deref,session_id}
-// @bound every received QUIC datagram of length 0..=10 (real bytes::Bytes)
+// @bound every received QUIC datagram of exactly 0 bytes (real bytes::Bytes; one harness per length so that the allocation is concrete: lengths 0, 1, 9 quick; 2, 5, 10 thorough)
 // @oracle total; Ok <=> a complete quarter id q <= 2^60-1 leads; session id == 4q (a client-initiated bidirectional stream id); payload == exact suffix; otherwise H3_DATAGRAM_ERROR
 #[kani::proof]
 #[kani::unwind(12)]
-fn c03_datagram_receive() {
+fn c03_datagram_receive_len0() {
     let b: [u8; 10] = kani::any();
-    let len: usize = kani::any();
-    kani::assume(len <= 10);
-    // one call site per length: the Bytes allocation has a concrete size AND the pointers stay concrete (selecting
-    // among allocations with a symbolic index is over-approximated by CBMC and gave a spurious counterexample)
-    match len {
-        0 => receive_check::<0>(&b),
-        1 => receive_check::<1>(&b),
-        2 => receive_check::<2>(&b),
-        3 => receive_check::<3>(&b),
-        4 => receive_check::<4>(&b),
-        5 => receive_check::<5>(&b),
-        6 => receive_check::<6>(&b),
-        7 => receive_check::<7>(&b),
-        8 => receive_check::<8>(&b),
-        9 => receive_check::<9>(&b),
-        _ => receive_check::<10>(&b),
-    }
+    receive_check::<0>(&b)
+}
+
+// @h props=C03,C17,C11 tier=quick t=1800 mem=20 sub=datagram-receive covers=any
+// @fn wtransport/src/datagram.rs Datagram::{read,payload,deref,session_id}
+// @bound every received QUIC datagram of exactly 1 bytes (real bytes::Bytes; one harness per length so that the allocation is concrete: lengths 0, 1, 9 quick; 2, 5, 10 thorough)
+// @oracle total; Ok <=> a complete quarter id q <= 2^60-1 leads; session id == 4q (a client-initiated bidirectional stream id); payload == exact suffix; otherwise H3_DATAGRAM_ERROR
+#[kani::proof]
+#[kani::unwind(12)]
+fn c03_datagram_receive_len1() {
+    let b: [u8; 10] = kani::any();
+    receive_check::<1>(&b)
+}
+
+// @h props=C03,C17,C11 tier=quick t=1800 mem=20 sub=datagram-receive covers=any
+// @fn wtransport/src/datagram.rs Datagram::{read,payload,deref,session_id}
+// @bound every received QUIC datagram of exactly 9 bytes (real bytes::Bytes; one harness per length so that the allocation is concrete: lengths 0, 1, 9 quick; 2, 5, 10 thorough)
+// @oracle total; Ok <=> a complete quarter id q <= 2^60-1 leads; session id == 4q (a client-initiated bidirectional stream id); payload == exact suffix; otherwise H3_DATAGRAM_ERROR
+#[kani::proof]
+#[kani::unwind(12)]
+fn c03_datagram_receive_len9() {
+    let b: [u8; 10] = kani::any();
+    receive_check::<9>(&b)
+}
+
+// @h props=C03,C17,C11 tier=thorough t=1800 mem=20 sub=datagram-receive covers=any
+// @fn wtransport/src/datagram.rs Datagram::{read,payload,deref,session_id}
+// @bound every received QUIC datagram of exactly 2 bytes (real bytes::Bytes; one harness per length so that the allocation is concrete: lengths 0, 1, 9 quick; 2, 5, 10 thorough)
+// @oracle total; Ok <=> a complete quarter id q <= 2^60-1 leads; session id == 4q (a client-initiated bidirectional stream id); payload == exact suffix; otherwise H3_DATAGRAM_ERROR
+#[kani::proof]
+#[kani::unwind(12)]
+fn c03_datagram_receive_len2() {
+    let b: [u8; 10] = kani::any();
+    receive_check::<2>(&b)
+}
+
+// @h props=C03,C17,C11 tier=thorough t=1800 mem=20 sub=datagram-receive covers=any
+// @fn wtransport/src/datagram.rs Datagram::{read,payload,deref,session_id}
+// @bound every received QUIC datagram of exactly 5 bytes (real bytes::Bytes; one harness per length so that the allocation is concrete: lengths 0, 1, 9 quick; 2, 5, 10 thorough)
+// @oracle total; Ok <=> a complete quarter id q <= 2^60-1 leads; session id == 4q (a client-initiated bidirectional stream id); payload == exact suffix; otherwise H3_DATAGRAM_ERROR
+#[kani::proof]
+#[kani::unwind(12)]
+fn c03_datagram_receive_len5() {
+    let b: [u8; 10] = kani::any();
+    receive_check::<5>(&b)
+}
+
+// @h props=C03,C17,C11 tier=thorough t=1800 mem=20 sub=datagram-receive covers=any
+// @fn wtransport/src/datagram.rs Datagram::{read,payload,deref,session_id}
+// @bound every received QUIC datagram of exactly 10 bytes (real bytes::Bytes; one harness per length so that the allocation is concrete: lengths 0, 1, 9 quick; 2, 5, 10 thorough)
+// @oracle total; Ok <=> a complete quarter id q <= 2^60-1 leads; session id == 4q (a client-initiated bidirectional stream id); payload == exact suffix; otherwise H3_DATAGRAM_ERROR
+#[kani::proof]
+#[kani::unwind(12)]
+fn c03_datagram_receive_len10() {
+    let b: [u8; 10] = kani::any();
+    receive_check::<10>(&b)
 }
 
 fn receive_check<const LEN: usize>(b: &[u8; 10]) {
